@@ -111,7 +111,7 @@ theorem optTrailing_wc {C : Codecs} {T : String → Prop} (andx : Bool) (env : E
       · have := hot _ h; simp at this
 
 structure MirrorFactsL (c : Cmd) (body : List UStmt) (m u : List Slot) : Prop where
-  hbody : bodyU c = some body
+  hbody : bodyN c = some body
   lm : layoutML c.marshal = some m
   lu : layoutUL body = some u
   agP : agreeAll (m.filter (·.blk == .P)) (u.filter (·.blk == .P)) = true
@@ -216,29 +216,32 @@ theorem mirror_loops_roundtrip_full {C : Codecs} {T : String → Prop} (hC : Law
       (c.isAndX = true → (sM.env.get andxField).isSome = true) ∧ Recv (recvFields body) s1.env sM.env ∧
       s1.wordCount = wordCountOf c.isAndX sM.P ∧ s1.pad = 0 := by
     have hb := F.hbody
-    unfold bodyU at hb
+    unfold bodyN bodyU at hb
     cases ha : c.isAndX with
     | false =>
       rw [ha] at hb
-      simp only [Bool.false_eq_true, if_false, Option.some.injEq] at hb
+      simp only [Bool.false_eq_true, if_false, Option.map_some, Option.some.injEq] at hb
       subst hb
+      rw [← relationsHold_normWhole C sM.env sM.P.length c.unmarshal 0] at hrel
+      rw [← go_normWhole C c.unmarshal s0]
       exact ⟨s0, by simp [s0, axOf, ha, andxBytesOf], rfl, rfl, rfl, hrel, fun f hf => by simp at hf,
         (fun h => by cases h), hsz0, by simp [s0, ha], rfl⟩
     | true =>
       rw [ha] at hb haok hframe
-      simp only [if_true] at hb
+      simp only [if_true, Option.map_eq_some_iff] at hb
+      obtain ⟨body0, hb, rfl⟩ := hb
       obtain ⟨a, b, cc, dd, hax, hval⟩ := andxOk_decode env haok
       have h0 : s0.P = a :: b :: cc :: dd :: sM.P := by simp [s0, axOf, ha, hax]
       refine ⟨afterAndX s0 a b cc dd sM.P, rfl, rfl, rfl,
-        go_andx_prefix C a b cc dd sM.P c.unmarshal body s0 hb h0, ?_, ?_, fun _ => ?_, ?_, by simp [afterAndX, s0, ha], rfl⟩
-      · rw [← relationsHold_splitAndX C sM.env sM.P.length c.unmarshal body 0 hb]; exact hrel
+        (go_andx_prefix C a b cc dd sM.P c.unmarshal body0 s0 hb h0).trans (go_normWhole C body0 _).symm, ?_, ?_, fun _ => ?_, ?_, by simp [afterAndX, s0, ha], rfl⟩
+      · rw [relationsHold_normWhole, ← relationsHold_splitAndX C sM.env sM.P.length c.unmarshal body0 0 hb]; exact hrel
       · intro f hf
         have : f = andxField := by simpa using hf
         subst this
         show (env0.set andxField (andxVal a b cc dd)).get andxField = _
         rw [Env.get_set_self, hframe, hval]
       · rw [hframe, hval]; rfl
-      · show Recv (recvFields body) (env0.set andxField (andxVal a b cc dd)) sM.env
+      · show Recv (recvFields (normWhole body0)) (env0.set andxField (andxVal a b cc dd)) sM.env
         exact hsz0.set_ne andxField _ (fun p hp => (F.range p hp).1)
   obtain ⟨s1, h1P, h1D, h1o, hgo, hrelB, hag1, hseenA, hsz1, hwc1, hpad1⟩ := hgo
   have hwc : WcTells sM.env s1.wordCount u := by
